@@ -783,6 +783,7 @@ func (w *World) setup() bool {
 	}
 	w.handler = grpctunnel.NewTunnelServiceHandler(w.hopts)
 	w.handler.RegisterService(&svcDesc, &Instance{w: w, idx: 0})
+	w.handler.RegisterService(&svcDescAlt, &Instance{w: w, idx: 0})
 	if cfg.Dir == "nested" || cfg.Dir == "nestedrev" {
 		tunnelpb.RegisterTunnelServiceServer(w.handler, w.handler.Service())
 	}
@@ -931,6 +932,7 @@ func (w *World) openTunnel(spec TunnelSpec, fatal bool) bool {
 			rs := &revServer{idx: len(w.servers), conn: t.conn}
 			rs.rs = grpctunnel.NewReverseTunnelServer(stub, fcOpt(cfg.ClientFC)...)
 			rs.rs.RegisterService(&svcDesc, &Instance{w: w, idx: rs.idx})
+			rs.rs.RegisterService(&svcDescAlt, &Instance{w: w, idx: rs.idx})
 			if cfg.Dir == "nestedrev" {
 				tunnelpb.RegisterTunnelServiceServer(rs.rs, w.handler.Service())
 			}
@@ -1651,6 +1653,9 @@ func (w *World) methodOf(sp *RPC) string {
 		}
 		return decStr(sp.Method)
 	}
+	if sp.Alt {
+		return strings.Replace(shapeMethod(sp.Shape), "/verif.Svc/", "/verif.Alt/", 1)
+	}
 	return shapeMethod(sp.Shape)
 }
 
@@ -2256,10 +2261,18 @@ func scriptedStatus(sp *RPC) error {
 	return st.Err()
 }
 
-func unaryHandler(srv any, ctx context.Context, dec func(any) error, _ grpc.UnaryServerInterceptor) (any, error) {
+func unaryHandler(srv any, ctx context.Context, dec func(any) error, ic grpc.UnaryServerInterceptor) (any, error) {
+	return unaryHandlerAs("unary", srv, ctx, dec, ic)
+}
+
+func altUnaryHandler(srv any, ctx context.Context, dec func(any) error, ic grpc.UnaryServerInterceptor) (any, error) {
+	return unaryHandlerAs("alt:unary", srv, ctx, dec, ic)
+}
+
+func unaryHandlerAs(label string, srv any, ctx context.Context, dec func(any) error, _ grpc.UnaryServerInterceptor) (any, error) {
 	inst := srv.(*Instance)
 	w := inst.w
-	r, inv := w.logInvocation(inst, "unary", ctx)
+	r, inv := w.logInvocation(inst, label, ctx)
 	defer func() {
 		w.mu.Lock()
 		if !w.frozen {
@@ -2452,6 +2465,11 @@ func (w *World) opHandlerMD(ctx context.Context, ss grpc.ServerStream, op MDOp, 
 }
 
 func streamHandlerFor(shape string) grpc.StreamHandler {
+	return streamHandlerAs(shape)
+}
+
+// streamHandlerAs: label is what the invocation log records as the handler that ran ("bidi", or "alt:bidi" for service verif.Alt).
+func streamHandlerAs(shape string) grpc.StreamHandler {
 	return func(srv any, ss grpc.ServerStream) error {
 		inst := srv.(*Instance)
 		w := inst.w
@@ -2616,6 +2634,20 @@ var svcDesc = grpc.ServiceDesc{
 		{StreamName: "CStream", Handler: streamHandlerFor("cstream"), ClientStreams: true},
 		{StreamName: "SStream", Handler: streamHandlerFor("sstream"), ServerStreams: true},
 		{StreamName: "Bidi", Handler: streamHandlerFor("bidi"), ClientStreams: true, ServerStreams: true},
+	},
+	Metadata: "verif.proto",
+}
+
+// svcDescAlt is a second service registered next to verif.Svc on every handler: the same method names and shapes, its own
+// handlers (the invocation log records "alt:<shape>"), so that "exactly the named handler" covers two services sharing names.
+var svcDescAlt = grpc.ServiceDesc{
+	ServiceName: "verif.Alt",
+	HandlerType: (*any)(nil),
+	Methods:     []grpc.MethodDesc{{MethodName: "Unary", Handler: altUnaryHandler}},
+	Streams: []grpc.StreamDesc{
+		{StreamName: "CStream", Handler: streamHandlerAs("alt:cstream"), ClientStreams: true},
+		{StreamName: "SStream", Handler: streamHandlerAs("alt:sstream"), ServerStreams: true},
+		{StreamName: "Bidi", Handler: streamHandlerAs("alt:bidi"), ClientStreams: true, ServerStreams: true},
 	},
 	Metadata: "verif.proto",
 }
@@ -2890,6 +2922,13 @@ func (w *World) fire(i int) {
 	rec.Fired = w.step
 	w.mu.Unlock()
 	rec.FramesDelivered = w.deliveredCount()
+	for _, st := range w.net.Streams() {
+		for d := C2S; d <= S2C; d++ {
+			if st.BlockedOnCapacity(d) {
+				rec.CapBlocked[d] = true
+			}
+		}
+	}
 	tun := func() *tunnelState {
 		w.mu.Lock()
 		defer w.mu.Unlock()
